@@ -161,6 +161,17 @@ func Load(repo string, extDir string) (*Program, error) {
 	return P, nil
 }
 
+// bufferAPIFunc: the methods of *PrintCtx that mirror bytes.Buffer (they manage length and content together).
+func bufferAPIFunc(fn *ssa.Function) bool {
+	switch fn.Name() {
+	case "Write", "WriteString", "WriteByte", "WriteRune", "ReadFrom", "Grow", "grow", "tryGrowByReslice", "PreAlloc":
+		if fn.Signature.Recv() != nil && strings.HasSuffix(typeName(fn.Signature.Recv().Type()), "logg/slog.PrintCtx") {
+			return true
+		}
+	}
+	return false
+}
+
 // expandAuto adds the synthesized non-nil preconditions of an "auto" contract.
 func (P *Program) expandAuto(c *Contract, fn *ssa.Function) error {
 	add := func(list *[]*Clause, text string) error {
@@ -190,6 +201,16 @@ func (P *Program) expandAuto(c *Contract, fn *ssa.Function) error {
 		}
 		if !hasStr(c.Keeps, d) {
 			c.Keeps = append(c.Keeps, d)
+		}
+	}
+	// only the buffer API itself may extend the record buffer's length without writing the new bytes
+	// (stale bytes of an earlier record must never become part of this one: C09)
+	if !bufferAPIFunc(fn) {
+		for _, callee := range []string{"(*PrintCtx).grow", "(*PrintCtx).tryGrowByReslice"} {
+			cl, err := parseClause(c.File, c.Line, "[C09.no-raw-grow] false")
+			if err == nil {
+				c.Asserts = append(c.Asserts, &AtClause{Where: "call " + callee, Clause: cl, Maybe: true})
+			}
 		}
 	}
 	for _, p := range fn.Params {
